@@ -603,8 +603,79 @@ var Prop = &harness.Prop{
 			}
 		}
 		u = append(u, serverHelloSweepUnit(true), serverHelloSweepUnit(false))
+		u = append(u, suiteVersionUnit())
 		u = append(u, refUnits()...)
 		u = append(u, renegUnits()...)
 		return u
 	},
+}
+
+// suiteVersionUnit: a ClientHello of every TLS version offering exactly one suite, for every suite
+// the library exports, to a TLS server that lists exactly that suite (default-off suites included)
+// and holds an RSA and an ECDSA certificate through GetCertificate. A suite that needs TLS 1.2 (AEAD,
+// SHA-256/384 MAC) must not be selected for an older hello; an unknown or unimplemented suite never.
+// The server answers a ServerHello only when the pair (suite, version) is defined.
+func suiteVersionUnit() harness.Unit {
+	return harness.Unit{Name: "clienthello-suite-for-version", Run: func(c *harness.Ctx) {
+		p := tlsk.Get()
+		type su struct {
+			id     uint16
+			rsa    bool
+			only12 bool
+			absent bool // exported constant without an implementation
+		}
+		all := []su{
+			{0x0005, true, false, false}, {0x000a, true, false, false}, {0x002f, true, false, false}, {0x0035, true, false, false}, {0x003c, true, true, false}, {0x009c, true, true, false}, {0x009d, true, true, false},
+			{0xc007, false, false, false}, {0xc009, false, false, false}, {0xc00a, false, false, false}, {0xc011, true, false, false}, {0xc012, true, false, false}, {0xc013, true, false, true}, {0xc014, true, false, false},
+			{0xc023, false, true, false}, {0xc027, true, true, true}, {0xc02f, true, true, false}, {0xc02b, false, true, false}, {0xc030, true, true, false}, {0xc02c, false, true, false}, {0xcca8, true, true, false}, {0xcca9, false, true, false},
+			{0xe013, false, true, true}, {0xe053, false, true, true}, {0x1301, false, true, true}, {0x00ff, false, false, true},
+		}
+		for _, s := range all {
+			for _, v := range []uint16{0x0300, 0x0301, 0x0302, 0x0303, 0x0304} {
+				cert := p.ECDSA
+				if s.rsa {
+					cert = p.RSA
+				}
+				scfg := &gmtls.Config{Certificates: []gmtls.Certificate{cert}, Time: tlsk.FixedTime, Rand: wire.NewRand(5), CipherSuites: []uint16{s.id}}
+				hello := buildClientHello(v, []uint16{s.id}, []byte{0}, true)
+				var cv, sv tlsk.View
+				o := tlsk.Run(rawPeer(wire.Frame(0x0301, 22, hello), &cv), tlsk.GMEnd(scfg, false, app[1], &sv, nil), &cv, &sv, nil)
+				tag := fmt.Sprintf("TLS server listing only suite %04x; ClientHello version %04x offering only that suite", s.id, v)
+				c.Add("executions", 1)
+				c.Add("transitions", 1)
+				c.DistinctS("states", tag)
+				if o.S.Panic != nil {
+					c.Violate(fmt.Sprintf("panic:server:%s", site(o.S.Stack)), fmt.Sprintf("[%s] server panicked: %v\n%s", tag, o.S.Panic, clip(o.S.Stack, 1200)), nil, tag)
+					continue
+				}
+				if len(o.Stuck) > 0 {
+					c.Violate("hang:clienthello", fmt.Sprintf("[%s] server keeps waiting after the peer closed: %v", tag, o.Stuck), nil, tag)
+					continue
+				}
+				if o.S.Complete || o.S.HandshakeErr == nil {
+					c.Violate("completes-after:clienthello-only", fmt.Sprintf("[%s] the server reports completion although the peer sent only a ClientHello", tag), nil, tag)
+				}
+				// what the raw peer read back: a ServerHello (handshake record whose first message has type 2)?
+				answered := len(cv.Read) >= 6 && cv.Read[0] == 22 && cv.Read[5] == 2
+				eff := v
+				if eff > 0x0303 {
+					eff = 0x0303
+				}
+				// SSL 3.0 hellos are answered by this library for the suites that predate TLS 1.2: not judged
+				defined := !s.absent && (!s.only12 || eff == 0x0303)
+				c.DistinctS("outcomes", fmt.Sprintf("%v/%v", answered, defined))
+				if answered && !defined {
+					c.Violate(fmt.Sprintf("serverhello-for-undefined-suite-version:%04x:%04x", s.id, v), fmt.Sprintf("[%s] the server answered with a ServerHello (%x...) although this suite is not defined for this version", tag, clipB(cv.Read, 12)), nil, tag)
+				}
+			}
+		}
+		c.Sample("26 suite ids (all exported TLS suites, the GMSSL ids, a TLS 1.3 id, the renegotiation SCSV) x ClientHello versions 0300..0304, one suite offered to a server listing exactly that suite")
+	}}
+}
+
+func clipB(b []byte, n int) []byte {
+	if len(b) > n {
+		return b[:n]
+	}
+	return b
 }
